@@ -15,7 +15,7 @@ func init() {
 	register(&property{id: "C20", run: runC20, meta: propMeta{
 		level: "other",
 		explanation: "Structural necessary conditions of 'errors are reported at the first offending token': the embedded tables are exactly the LALR(1) tables with explicit error entries and no default actions (so the driver never shifts a token that cannot continue a sentence); the ParseError built on an ACTION error takes its position and quoted lexeme from the very token whose terminal was passed to ACTION; the scanner's error leaf formats the position returned by the call that consumes the pending lexeme (its first character) and the scan loop returns exactly that text; the file name given to the entry points reaches the reader unchanged; the end-marker token carries no position of an earlier token.",
-		trusted: []string{"LR correct-prefix property of exact LALR(1) tables", "the dependency's Input returns the lexeme start as position", "the dependency's ParseError formatting"},
+		trusted: []string{"LR correct-prefix property of exact LALR(1) tables", "unicode/utf8's DecodeRune / DecodeLastRune contracts", "the dependency's ParseError formatting"},
 		assumptions: []string{"message wording is not checked"},
 	}})
 }
